@@ -209,6 +209,7 @@ func registerIntrinsics(e *Engine) {
 
 	registerVerif(e, reg)
 	registerTok(e, reg)
+	registerVal(e, reg)
 }
 
 func concStr(v Value) (string, bool) { s, ok := v.(string); return s, ok }
